@@ -2,10 +2,15 @@ package bridge
 
 // C20: the query (event) database records every finalized bridge and pool event.
 //
-// For every op list (TLC-enumerated by spec/MC_EventDB.tla, or seeded random) two blocks are processed:
+// For every op list (TLC-enumerated by spec/MC_EventDB.tla, or seeded random) two passes are made:
 //   synthetic: the events are built here exactly as burn.go / mint.go emit them;
 //   real:      the burns and mints are executed as real transactions in ONE block on the real chain
 //              state and the block's own event list (block.Events) is taken.
+// An op list may hold "block" markers: the ops then fill several consecutive blocks (real pass: a chain
+// of real blocks, each on its predecessor), the burn nonces and the mint nonce run on, and every block
+// goes through the event-database path on the SAME database, which keeps the rows of the earlier blocks.
+// What is logged for a block is what THAT block added (rows / totals read back after it minus read back
+// before it).
 // Each event list goes through the REAL event-database path: mergeEvents (via EventDb.MergeEvents) and
 // the REAL tag handlers (EventDb.ProcessEvents -> worker -> WorkEvents -> processEvent, the call
 // chain.finalizeBlock makes) on the in-memory sqlite event DB; rows are read back with the package's
@@ -21,6 +26,7 @@ import (
 	"strings"
 	"time"
 
+	"0chain.net/chaincore/block"
 	"0chain.net/chaincore/state"
 	"0chain.net/core/config"
 	"0chain.net/core/encryption"
@@ -35,7 +41,7 @@ import (
 )
 
 type eop struct {
-	Op   string   `json:"op"` // burn | mint
+	Op   string   `json:"op"` // burn | mint | block (the ops that follow go into the next block)
 	C    string   `json:"c"`
 	Eth  string   `json:"eth"`
 	Sigs []string `json:"sigs"` // authorizer names
@@ -63,9 +69,20 @@ type mintT struct {
 
 type edrv struct {
 	*drv
-	edb   *event.EventDb
-	stmts []event.VerifBridgeStmt
-	round int64
+	edb    *event.EventDb
+	stmts  []event.VerifBridgeStmt
+	dbErrs []string // statements the database itself refused while a block was stored
+	round  int64
+
+	// state of one pass (a sequence of blocks on one database)
+	authRows  []string         // authorizers that have a row
+	opSeq     int              // ops so far
+	synNonce  map[string]int64 // synthetic pass: burn nonce per address
+	mintSeq   int64
+	prevRows  []ticketT // burn_tickets rows read back after the previous block
+	prevBurn  map[string]int64
+	prevMint  map[string]int64
+	prevBlock *block.Block // real pass: the block before
 }
 
 func runEventDB(a common.Args) {
@@ -80,6 +97,14 @@ func runEventDB(a common.Args) {
 	e := &edrv{drv: d, edb: edb, round: 100}
 	if err := event.VerifBridgeSqliteShim(edb, func(st event.VerifBridgeStmt) { e.stmts = append(e.stmts, st) }); err != nil {
 		rec.Fatal("bridge: sqlite shim: %v", err)
+	}
+	if err := event.VerifBridgeObserveDBErrors(edb, func(kind, sql, err string) {
+		if err == "record not found" || strings.Contains(err, "constraint") {
+			return // an answer of the database, not a limit of it
+		}
+		e.dbErrs = append(e.dbErrs, kind+": "+err)
+	}); err != nil {
+		rec.Fatal("bridge: db error observer: %v", err)
 	}
 	time.Sleep(50 * time.Millisecond) // let the db's worker finish its start-up partition statements
 	id := 0
@@ -113,7 +138,11 @@ func (e *edrv) randomOps() []eop {
 	eths := []string{"e1", "e2", "e3"}
 	sets := [][]string{{"a1", "a2"}, {"a2", "a3"}, {"a1", "a3"}, {"a1", "a2", "a3"}}
 	var ops []eop
+	multi := r.Intn(2) == 0 // half of the lists spread over several blocks
 	for n := 1 + r.Intn(8); n > 0; n-- {
+		if multi && len(ops) > 0 && ops[len(ops)-1].Op != "block" && r.Intn(3) == 0 {
+			ops = append(ops, eop{Op: "block"})
+		}
 		if r.Intn(3) > 0 {
 			ops = append(ops, eop{Op: "burn", C: clients[r.Intn(len(clients))], Eth: eths[r.Intn(len(eths))]})
 		} else {
@@ -123,6 +152,25 @@ func (e *edrv) randomOps() []eop {
 	return ops
 }
 
+func splitBlocks(ops []eop) [][]eop {
+	var out [][]eop
+	var cur []eop
+	for _, o := range ops {
+		if o.Op == "block" {
+			if len(cur) > 0 {
+				out = append(out, cur)
+			}
+			cur = nil
+			continue
+		}
+		cur = append(cur, o)
+	}
+	if len(cur) > 0 || len(out) == 0 {
+		out = append(out, cur)
+	}
+	return out
+}
+
 func (e *edrv) trace(id int, kind string, ops []eop) {
 	d := e.drv
 	d.traceID = id
@@ -130,12 +178,44 @@ func (e *edrv) trace(id int, kind string, ops []eop) {
 	d.w.Now = d.baseNow
 	d.rc.TraceID = id - 1
 	d.rc.Reset(rec.M{"family": "bridge", "kind": kind, "id": id, "seed": d.a.Seed, "ops": ops}, rec.M{"prop": "C20"})
-	// synthetic block
-	evs, burns, mints := e.synthetic(ops)
-	e.block("synthetic", e.syntheticSetup(), evs, burns, mints)
-	// real block: the same ops as real transactions in one block
-	evs, burns, mints = e.real(ops)
-	e.block("real", e.realSetup(), evs, burns, mints)
+	blocks := splitBlocks(ops)
+	// synthetic blocks
+	e.startPass(e.syntheticSetup())
+	for k, ops := range blocks {
+		evs, burns, mints := e.synthetic(ops)
+		e.block("synthetic", k+1, evs, burns, mints)
+	}
+	// real blocks: the same ops as real transactions, one real block per block of the list
+	e.startPass(e.realSetup())
+	for k, ops := range blocks {
+		evs, burns, mints := e.real(ops)
+		e.block("real", k+1, evs, burns, mints)
+	}
+}
+
+// startPass empties the database and fills the authorizers table: the add-authorizer events through
+// the same path.
+func (e *edrv) startPass(setup []event.Event) {
+	e.clean()
+	e.round++
+	be, _, err := e.edb.MergeEvents(setup, e.round, fmt.Sprintf("setup-%d", e.round), 0)
+	if err == nil {
+		_, err = e.edb.WorkEvents(context.Background(), be)
+	}
+	if err != nil {
+		rec.Fatal("bridge C20: setup block: %v", err)
+	}
+	e.authRows = []string{}
+	for _, k := range e.auths {
+		if _, err := e.edb.GetAuthorizer(k.ID); err == nil {
+			e.authRows = append(e.authRows, k.Name)
+		}
+	}
+	e.opSeq, e.mintSeq, e.synNonce, e.prevBlock = 0, 0, map[string]int64{}, nil
+	e.prevRows, e.prevBurn, e.prevMint = e.readRows(), map[string]int64{}, map[string]int64{}
+	if len(e.prevRows) != 0 {
+		rec.Fatal("bridge C20: burn_tickets not empty at the start of a pass")
+	}
 }
 
 // ---------------------------------------------------------------- event lists
@@ -163,11 +243,11 @@ func (e *edrv) realSetup() []event.Event {
 func (e *edrv) synthetic(ops []eop) ([]event.Event, []burnT, []mintT) {
 	var evs []event.Event
 	burns, mints := []burnT{}, []mintT{}
-	nonce := map[string]int64{}
-	mintSeq := int64(0)
-	for i, o := range ops {
+	nonce := e.synNonce
+	for _, o := range ops {
 		c := e.key(o.C)
-		txHash := encryption.Hash(fmt.Sprintf("synthetic-txn-%d-%d-%d", e.a.Seed, e.traceID, i))
+		txHash := encryption.Hash(fmt.Sprintf("synthetic-txn-%d-%d-%d", e.a.Seed, e.traceID, e.opSeq))
+		e.opSeq++
 		switch o.Op {
 		case "burn":
 			v := e.minBurn + uint64(e.r.Intn(900))
@@ -180,7 +260,8 @@ func (e *edrv) synthetic(ops []eop) ([]event.Event, []burnT, []mintT) {
 					Data: &event.BurnTicket{EthereumAddress: eth, Hash: txHash, Amount: currency.Coin(v), Nonce: nonce[eth]}})
 			burns = append(burns, burnT{c.Name, o.Eth, int64(v), nonce[eth]})
 		case "mint":
-			mintSeq++
+			e.mintSeq++
+			mintSeq := e.mintSeq
 			amount := e.minMint + uint64(e.r.Intn(2000))
 			fee := uint64(maxFee / len(o.Sigs))
 			signers := []string{}
@@ -203,14 +284,18 @@ func (e *edrv) synthetic(ops []eop) ([]event.Event, []burnT, []mintT) {
 	return evs, burns, mints
 }
 
-// real executes the ops as real transactions in ONE block and returns the block's own events.
+// real executes the ops as real transactions in ONE block (on the base block, or on the block the
+// previous call made) and returns the block's own events.
 func (e *edrv) real(ops []eop) ([]event.Event, []burnT, []mintT) {
 	d := e.drv
 	w := d.w
-	d.w.ColdCache() // see world.ColdCache
-	d.beginBlock(d.base)
+	if e.prevBlock == nil {
+		d.w.ColdCache() // see world.ColdCache
+		d.beginBlock(d.base)
+	} else {
+		d.beginBlock(e.prevBlock)
+	}
 	burns, mints := []burnT{}, []mintT{}
-	mintSeq := int64(0)
 	for _, o := range ops {
 		c := d.key(o.C)
 		switch o.Op {
@@ -222,7 +307,8 @@ func (e *edrv) real(ops []eop) ([]event.Event, []burnT, []mintT) {
 			}
 			burns = append(burns, burnT{c.Name, o.Eth, int64(v), d.snap().BurnNonce[d.eths[o.Eth]]})
 		case "mint":
-			mintSeq++
+			e.mintSeq++
+			mintSeq := e.mintSeq
 			amount := d.minMint + uint64(d.r.Intn(2000))
 			d.ethSeq++
 			ethTxn := "0x" + encryption.Hash(fmt.Sprintf("eth-burn-%d-%d-%d", d.a.Seed, d.traceID, d.ethSeq))
@@ -244,7 +330,7 @@ func (e *edrv) real(ops []eop) ([]event.Event, []burnT, []mintT) {
 		}
 	}
 	evs := append([]event.Event{}, w.Cur.Events...)
-	w.EndBlock()
+	e.prevBlock = w.EndBlock()
 	return evs, burns, mints
 }
 
@@ -367,24 +453,50 @@ func sortTickets(t []ticketT) {
 	})
 }
 
-func (e *edrv) block(mode string, setup, evs []event.Event, burns []burnT, mints []mintT) {
-	ctx := context.Background()
-	e.clean()
-	// the authorizers table: the add-authorizer events through the same path
-	e.round++
-	be, _, err := e.edb.MergeEvents(setup, e.round, fmt.Sprintf("setup-%d", e.round), 0)
-	if err == nil {
-		_, err = e.edb.WorkEvents(ctx, be)
-	}
-	if err != nil {
-		rec.Fatal("bridge C20: setup block: %v", err)
-	}
-	auths := []string{}
-	for _, k := range e.auths {
-		if _, err := e.edb.GetAuthorizer(k.ID); err == nil {
-			auths = append(auths, k.Name)
+// readRows reads the burn_tickets rows of the tracked addresses back with the package's query function.
+func (e *edrv) readRows() []ticketT {
+	rows := []ticketT{}
+	for _, n := range e.ethNames {
+		if n == "" {
+			continue
+		}
+		ts, err := e.edb.GetBurnTickets(e.eths[n])
+		if err != nil {
+			rec.Fatal("bridge C20: GetBurnTickets: %v", err)
+		}
+		for _, t := range ts {
+			rows = append(rows, ticketT{n, clamp(int64(t.Amount)), clamp(t.Nonce)})
 		}
 	}
+	sortTickets(rows)
+	return rows
+}
+
+// rowsAdded: the rows of `after` that `before` does not hold (as multisets), and whether every row of
+// `before` is still there.
+func rowsAdded(before, after []ticketT) ([]ticketT, bool) {
+	left := map[ticketT]int{}
+	for _, t := range before {
+		left[t]++
+	}
+	added := []ticketT{}
+	for _, t := range after {
+		if left[t] > 0 {
+			left[t]--
+			continue
+		}
+		added = append(added, t)
+	}
+	kept := true
+	for _, n := range left {
+		kept = kept && n == 0
+	}
+	return added, kept
+}
+
+func (e *edrv) block(mode string, blkNo int, evs []event.Event, burns []burnT, mints []mintT) {
+	ctx := context.Background()
+	auths := e.authRows
 	// merge stage on the whole event list of the block
 	e.round++
 	hash := encryption.Hash(fmt.Sprintf("c20-block-%d-%d-%s-%d", e.a.Seed, e.traceID, mode, e.round))
@@ -403,7 +515,7 @@ func (e *edrv) block(mode string, setup, evs []event.Event, burns []burnT, mints
 			filtered = append(filtered, ev)
 		}
 	}
-	e.stmts = nil
+	e.stmts, e.dbErrs = nil, nil
 	workErr := ""
 	if len(filtered) > 0 {
 		_, n, err := e.edb.ProcessEvents(ctx, filtered, e.round, hash, len(burns)+len(mints),
@@ -414,26 +526,17 @@ func (e *edrv) block(mode string, setup, evs []event.Event, burns []burnT, mints
 			e.edb.AddToEventsCounter(uint64(n))
 		}
 	}
-	// read back with the package's query functions
-	rows := []ticketT{}
-	for _, n := range e.ethNames {
-		if n == "" {
-			continue
-		}
-		ts, err := e.edb.GetBurnTickets(e.eths[n])
-		if err != nil {
-			rec.Fatal("bridge C20: GetBurnTickets: %v", err)
-		}
-		for _, t := range ts {
-			rows = append(rows, ticketT{n, clamp(int64(t.Amount)), clamp(t.Nonce)})
-		}
-	}
-	sortTickets(rows)
+	// read back with the package's query functions; logged: what this block added
+	rowsDB := e.readRows()
+	rows, rowsKept := rowsAdded(e.prevRows, rowsDB)
+	e.prevRows = rowsDB
 	dBurn, dMint := []pair{}, []pair{}
 	for _, k := range e.auths {
 		if a, err := e.edb.GetAuthorizer(k.ID); err == nil {
-			dBurn = append(dBurn, pair{k.Name, clamp(int64(a.TotalBurn))})
-			dMint = append(dMint, pair{k.Name, clamp(int64(a.TotalMint))})
+			tb, tm := clamp(int64(a.TotalBurn)), clamp(int64(a.TotalMint))
+			dBurn = append(dBurn, pair{k.Name, tb - e.prevBurn[k.Name]})
+			dMint = append(dMint, pair{k.Name, tm - e.prevMint[k.Name]})
+			e.prevBurn[k.Name], e.prevMint[k.Name] = tb, tm
 		}
 	}
 	userNonces := []pair{}
@@ -446,8 +549,11 @@ func (e *edrv) block(mode string, setup, evs []event.Event, burns []burnT, mints
 	argBurn, argMint := []pair{}, []pair{}
 	translated := true
 	for _, st := range e.stmts {
-		if st.Err != "" && workErr == "" {
-			workErr = "stmt: " + st.Err
+		if st.Err != "" {
+			e.dbErrs = append(e.dbErrs, "stmt: "+st.Err)
+			if workErr == "" {
+				workErr = "stmt: " + st.Err
+			}
 		}
 		translated = translated && st.Translated
 		if len(st.Cols) != 2 || st.Cols[0] != "id" {
@@ -496,8 +602,19 @@ func (e *edrv) block(mode string, setup, evs []event.Event, burns []burnT, mints
 	if len(workErr) > 120 {
 		workErr = workErr[:120]
 	}
-	shape := fmt.Sprintf("%s/b%d/m%d/%s", mode, len(burns), len(mints),
-		strings.Join([]string{fmt.Sprint(dupEth), fmt.Sprint(dupBurner), fmt.Sprint(dupMinter)}, ","))
+	// a statement the database itself refused is a limit of the sqlite stand-in (harness); a store step that
+	// failed without one was refused by the handlers' own logic: the real answer of the code to this block
+	dbErr := strings.Join(e.dbErrs, "; ")
+	if len(dbErr) > 120 {
+		dbErr = dbErr[:120]
+	}
+	refused := workErr != "" && dbErr == ""
+	kb := blkNo
+	if kb > 3 {
+		kb = 3
+	}
+	shape := fmt.Sprintf("%s/b%d/m%d/%s/k%d", mode, len(burns), len(mints),
+		strings.Join([]string{fmt.Sprint(dupEth), fmt.Sprint(dupBurner), fmt.Sprint(dupMinter)}, ","), kb)
 	// one event per aspect (same payload), so that a known-finding signature can name exactly the
 	// aspect it is about: BlockMerge, BlockTickets, BlockBurnTotals, BlockMintTotals
 	for _, aspect := range []string{"BlockMerge", "BlockTickets", "BlockBurnTotals", "BlockMintTotals"} {
@@ -506,6 +623,7 @@ func (e *edrv) block(mode string, setup, evs []event.Event, burns []burnT, mints
 			"m_tickets": merged.tickets, "m_burns": merged.burns, "m_mints": merged.mints, "m_rewards": merged.rewards,
 			"rows": rows, "d_burn": dBurn, "d_mint": dMint, "auths": auths, "arg_burn": argBurn, "arg_mint": argMint,
 			"user_nonces": userNonces, "merge_err": mergeErr, "work_err": workErr, "shim_translated": translated,
+			"db_err": dbErr, "refused": refused, "blk": blkNo, "rows_db": rowsDB, "rows_kept": rowsKept,
 			"n_burns": len(burns), "n_mints": len(mints), "multi_burn": len(burns) >= 2, "has_mint": len(mints) >= 1,
 			"dup_index": dupEth || dupBurner || dupMinter, "dup_eth": dupEth, "dup_burner": dupBurner,
 			"dup_auth_burner": dupAuthBurner, "dup_minter": dupMinter},
